@@ -41,6 +41,22 @@ CLAIMS["C07"] = {
   "note": "Strings <=3 bytes (paths <=4), <=2 argument slots. Found and fixed: F2 (argNpath empty-string under-read). Not covered: rule text grammar (C07.c not built), "
           "recipient de-duplication across pools (C07.b not built), per-interface hash pools (R7).",
 }
+CLAIMS["C09"] = {
+  "text": "One-step checks of the real pending-reply book-keeping (bus_connections_expect_reply / _check_reply / bus_connection_drop_pending_replies in bus/connection.c on the real "
+          "expirelist.c, dbus-list.c and the real BusTransaction cancel-hook code): from every duplicate-free list of up to 3 open slots with symbolic caller/callee/serial, a reply is "
+          "'requested' exactly when the receiver holds an open slot for that sender and serial, the slot is consumed once, no-reply calls open no slot, duplicates are refused, the "
+          "per-connection limit holds, disconnects drop or mark slots as the statement prescribes, and cancelling the transaction restores the previous list.",
+  "note": "Not covered: synthesis of the NoReply error on expiry (harness OP=3 written but symex of the real send path does not finish; see DESIGN), reply-timeout arithmetic "
+          "(floating point), the policy-side use of requested_reply (that is C06.a/b).",
+}
+CLAIMS["C13"] = {
+  "text": "One-step induction with symbolic limits L in [1, INT_MAX]: names per connection (real bus_registry_acquire_service), pending replies per connection (real "
+          "bus_connections_expect_reply), match rules per connection (real bus_driver_handle_add_match with callee stubs) and message size (real "
+          "_dbus_header_have_message_untrusted, full-width arithmetic): with n <= L before the step, n' <= L after it; the request at the limit is refused with "
+          "LimitsExceeded and changes nothing; below the limit it is unaffected.",
+  "note": "Not covered: completed / per-user / incomplete connection limits (bus_connection_complete drags in login-info string building and the listener watch machinery), "
+          "<limit> parsing. Counters are symbolic, so the induction covers histories of any length for the covered limits.",
+}
 NOT_APPLICABLE = {f"C{n:02d}": PENDING for n in range(1, 21)}
 NOTES = ("All checks are solver-based (CBMC) over the real sources; see DESIGN.md. Exit 0 = all obligations UNSAT inside the stated bounds; "
          "exit 1 = counterexample (VIOLATION line when the native replay reproduces it); exit 2 = check broken on this tree.")
